@@ -14,6 +14,82 @@ chk("C01", "E-prod", PROD,
     "Every ordered operand pair of Dense(S5,4)^2, Runs(S5,k,L)^2 and the block-boundary length family is run through every add/sub form of BigUint and BigInt (4 sign pairs) and compared digit-for-digit with refint; a<b must panic / checked_sub must be None. Exhaustive inside the stated alphabet and length bounds, which are built from the code's branch points (5-digit asm block, carry into the longer operand's tail).",
     "Digits outside the 5-letter alphabet only via the control-flow argument in DESIGN.md 1; refint trusted, cross-checked against Python int.",
     "DESIGN.md 4/C01")
+chk("C02", "E-prod", PROD,
+    "Every (lx,ly) length pair up to the bound x 12x12 digit patterns (defined relative to the Karatsuba/Toom-3 split points), the Toom-3 band of lengths, dense small operands, low/inner zero digits, sign pairs and scalar forms; products compared digit-for-digit with the schoolbook product of refint. Probe counters show which regimes (long / half-Karatsuba / Karatsuba with each middle-term sign / Toom-3) were reached.",
+    "Operands above 3 digits are pattern-structured, not dense; refint trusted, cross-checked against Python.",
+    "DESIGN.md 4/C02")
+chk("C03", "E-prod", PROD,
+    "Every dividend/divisor pair of Dense(S8,4)xDense(S8,3), every normalisation shift, run-structured long operands and constructed trial-quotient boundary cases q*v+r through every division API (truncating, flooring, Euclidean, ceiling, checked) of BigUint and BigInt with all four sign pairs; compared with refint's shift-subtract division and the defining equation; zero divisors must panic / give None.",
+    "8-letter digit alphabet; refint division trusted (self-checked by a=q*b+r on every pair, cross-checked against Python).",
+    "DESIGN.md 4/C03")
+chk("C04", "E-hist + E-prod", HIST,
+    "stateright BFS over histories of in-place public operations (+= -= *= /= %= &= |= ^= <<= >>= set_bit set_zero set_one clone_from assign_from_slice neg not) on one live BigInt / BigUint from every initial construction (redundant zero words, inconsistent sign/magnitude, slack capacity); the state key is the complete private representation + model value + depth, every state is observed through Eq/Ord/Hash/exports against a freshly built canonical object; plus arbitrary/quickcheck generators and constructor families.",
+    "Depth-bounded (3 quick / 4 thorough) with a fixed operand pool; states over 8 digits are not expanded; DefaultHasher stands for Hash.",
+    "DESIGN.md 4/C04")
+chk("C05", "E-prod", PROD,
+    "Every (modulus, base, exponent) triple of the stated families (odd/even moduli of 1..3+ digits with small / all-ones top digit, bases shorter/equal/longer than the modulus, exponents with zero 4-bit windows and zero low digits) through BigUint::modpow and the four sign pairs of BigInt::modpow against refint square-and-multiply; modinv over complete squares decided by refint gcd and verified by b*x = 1 (mod m) and the interval; zero modulus / negative exponent must panic.",
+    "Finite families built around the branch points; refint trusted, cross-checked against Python pow/gcd.",
+    "DESIGN.md 4/C05")
+chk("C06", "E-prod", PROD,
+    "Output: every value of the stated families x every radix 2..=36 (text) and 2..=256 (digit vectors) must be canonical syntax and evaluate by Horner (refint) to the value and parse back; 224 literal format specs x 6 formatter traits against a padding reference validated against i128. Input: every string up to length 5 over a 12-symbol alphabet (and byte strings incl. invalid UTF-8) x 6 radices x both types x 3 entry points against a recogniser of the documented grammar; every digit slice over {0,1,r-2,r-1,r,255} for every radix.",
+    "Values are structured families (dense small, r^k+-1 at every chunk boundary, patterns around the 64-digit threshold), not all integers.",
+    "DESIGN.md 4/C06")
+chk("C07", "E-prod", PROD,
+    "Every ordered pair of signed values of +-Dense(S5,3) (and 4x2, run-structured up to 8 digits) through & | ^ in six forms each for BigInt (nine sign combinations) and BigUint, ! in two forms; every value x shift amount x each of the 12 primitive shift types x five forms, negative amounts must panic; every value x bit index for bit / set_bit and the whole-value bit queries; all against refint two's complement by explicit sign extension.",
+    "5-letter / 3-letter digit alphabets; shift amounts that would exhaust memory are out of scope per the property.",
+    "DESIGN.md 4/C07")
+chk("C08", "E-prod", PROD,
+    "Integers: every value s*2^k+d (k<=130, |d|<=3) x 12 primitive types through to_T / TryFrom<&Big> / TryFrom<Big> (error must carry the original) and back through From / FromPrimitive / ToBigInt / ToBigUint / TryFrom, plus every 8/16-bit value. Floats: a (mantissa pattern, guard, sticky placement, shift) family for to_f64/to_f32 compared bit-for-bit with refint round-half-even; from_f32 over 2^26 (quick) / all 2^32 (thorough) bit patterns, from_f64 over every exponent x 96 mantissas x sign.",
+    "big->float inputs are the structured family; from_f64 is not enumerated over all 2^64 patterns.",
+    "DESIGN.md 4/C08")
+chk("C09", "E-prod + E-hist", HIST,
+    "Export of every value of the stated families through every byte/u32/u64 export; import of every byte string over {00,01,7f,80,ff} and every u32 slice over {0,1,2^31,2^32-1} up to length 7 (9 thorough) through every constructor; complete tree walk of every call sequence over {next,next_back,nth(0..2)} up to length 8 (10 thorough) on the real iter_u32_digits / iter_u64_digits of 16 values against a VecDeque model, with len/size_hint after each call and last/count/rev/collect on replayed copies.",
+    "Iterator histories are bounded in length (longer than the digit lists, so exhaustion is inside the bound).",
+    "DESIGN.md 4/C09")
+chk("C10", "E-prod", PROD,
+    "A macro instantiates every provided operator form ({BigUint,BigInt} x {+,-,*,/,%,&,|,^,<<,>>,pow} x value/reference x scalar type on either side x compound assignment, scalar %= big, checked_*, Sum/Product) and compares each, on the full product of pool operands x scalar extremes, with the reference-by-reference big-by-big operation on the converted operands (same value or both panic), which is itself tied to refint.",
+    "Operands from the pool and scalar-extreme alphabets; the form matrix is whatever the macro can name (counted in evidence).",
+    "DESIGN.md 4/C10")
+chk("C11", "E-prod x configurations", PROD + "; run in the std and no_std builds",
+    "Every x of the stated families (dense small, u64 edge, perfect powers r^n and r^n+-1, 2^k+-1 for every k up to 2300) x degree set through sqrt/cbrt/nth_root/Roots for BigUint and BigInt (odd roots of negatives; even roots and n=0 must panic), verified by r^n <= x < (r+1)^n in refint; the whole space is executed in the std build (floating-point guesses) and the no_std build (power-of-two guesses).",
+    "x from structured families; both configurations must satisfy the oracle (hence agree).",
+    "DESIGN.md 4/C11")
+chk("C12", "E-prod", PROD,
+    "26 bases x every exponent 0..=600 (every trailing-zero / set-bit pattern up to 10 bits), every exponent < 4096 for bases 0,+-1,+-2, through every exponent type (u8..u128, usize, BigUint; value and reference forms) and the inherent pow(u32), against a running product in refint; BigUint exponents at the u64/u128 edges with bases 0 and +-1.",
+    "Fixed base set; exponents bounded by 600 (4096 for tiny bases).",
+    "DESIGN.md 4/C12")
+chk("C13", "E-prod", PROD,
+    "All (a,b) in [-80,80]^2, a structured family of large values with common powers of two spanning several digits x all sign pairs, and Dense(S5,2)^2 through gcd, lcm, gcd_lcm, extended_gcd, extended_gcd_lcm, is_multiple_of, next/prev_multiple_of, is_even, is_odd, inc, dec against refint Euclid and the defining identities.",
+    "Structured operand families; refint gcd trusted, cross-checked against Python math.gcd.",
+    "DESIGN.md 4/C13")
+chk("C14", "E-prod x profiles", PROD + "; release and debug-assertion/overflow-check profiles, worker subprocesses with fault and hang detection",
+    "The documented-failure set is enumerated explicitly (must panic / must be None) and the complement (the quick spaces of the value properties) is re-run with the oracle reduced to the outcome class in the release profile and in a profile with debug assertions and overflow checks, so every internal debug_assert and arithmetic overflow becomes an observable panic; process faults and non-termination are mapped to the case in flight.",
+    "Memory-exhausting operations are out of scope per the property; relcheck (opt-level 1 + debug assertions + overflow checks) stands for the dev profile.",
+    "DESIGN.md 4/C14")
+chk("C15", "E-prod under memory monitors", PROD + " executed under a guard-page allocator (and valgrind memcheck on a reduced space)",
+    "Every (len_a, len_b) in [0,17]^2 x digit contents x operand provenance through the add/sub forms, multiplication/division/radix callers of the asm loops, to_str_radix over all radices, gen_biguint for every bit size 0..=320, with every heap block ending (pass 1) or starting (pass 2) exactly at a PROT_NONE page, saved-copy comparison of borrowed operands and byte-wise ASCII validation of every produced String.",
+    "The asm! operand contract (an `in` register is decremented) is a compile-time obligation no execution-based monitor can see; not claimed.",
+    "DESIGN.md 4/C15")
+chk("C16", "E-prod over the configuration lattice", "exhaustive enumeration of the feature-subset lattice (build) and transcript equality across configurations",
+    "All 16 subsets of {rand,serde,quickcheck,arbitrary} with std and the 4 subsets of {rand,serde} without std are built from the working tree; one deterministic transcript (radix conversions, roots, and a cross-section of all other operations) is produced in {std,no_std} x {release,debug-assertions} + all-features and must be byte-identical and agree with refint.",
+    "Only x86_64-linux is present: 32-bit digit code and non-x86 fallbacks cannot be built here.",
+    "DESIGN.md 4/C16")
+chk("C17", "E-prod", PROD,
+    "A recording Serializer checks the token stream of every value of +-Dense(S32,3) (sequence of base-2^32 digits, declared length = emitted length, no trailing zero, BigInt as (i8 sign, seq)); a token-replay Deserializer feeds every u32 sequence up to length 7 over {0,1,2^32-1} x 5 size hints x 7 sign tokens (incl. inconsistent and invalid ones); serde_json round trip as a second real format.",
+    "Token sequences bounded in length; two formats (recorder, serde_json).",
+    "DESIGN.md 4/C17")
+chk("C18", "E-hist over RNG streams", "exhaustive enumeration of RNG output streams (words from a 5-letter alphabet up to a length bound) fed to the real generators, result and words-consumed compared with the specification model",
+    "A StreamRng replays an explicit word list; every stream up to the length bound over {0,1,2^31,2^32-1,0x5555aaaa} is fed to gen_biguint/gen_bigint for every bit size 0..=130, gen_biguint_below / ranges / Uniform / RandomBits over the bound families; result and number of words consumed must equal the property's own model (first ceil(n/32) words, top word shifted down; first candidate below the bound); uniformity by exhaustive preimage counting for n <= 12.",
+    "Streams bounded in length (then zeros, so rejection loops terminate); uniformity is exact counting for small widths, not statistics.",
+    "DESIGN.md 4/C18")
+chk("C19", "E-prod", PROD,
+    "Every value of the pool and +-Dense(S5,2), also as 'value whose predecessor had a larger capacity', through Neg, abs, signum, is_positive/negative, sign, magnitude, abs_sub (all ordered pairs), into_parts/from_biguint over all 3 x |Dense| (Sign, magnitude) pairs, to_biguint/to_bigint, zero/ZERO/default/one/is_zero/is_one/set_zero/set_one, Sign negation and multiplication tables, against refint definitions.",
+    "Pool and 5-letter alphabet values.",
+    "DESIGN.md 4/C19")
+chk("C20", "E-prod", "exhaustive enumeration of the property's own finite quantifier (operand lengths) with a deterministic work counter in the real code",
+    "The MAC_WORK hook (sum of row lengths passed to the multiply-accumulate row routine) is read around one multiplication of fixed dense operands for every n in {256,...,16384} and every n in 33..=4096 (doubling ratio W(2n)/W(n) <= 3.5), W(4096) < 4096^2/4, and the unbalanced bank W(lx,ly) <= lx*ly; products are also checked against refint.",
+    "The counter counts digit multiplications in the row routine only (the property's definition of cost); thresholds carry >= 10% margin over the measured values.",
+    "DESIGN.md 4/C20")
 
 NOT_YET = {}
 
@@ -28,7 +104,8 @@ def main():
     na = []
     for p in props:
         pid = p["id"]
-        if pid in CHECKS:
+        has_bin = os.path.exists(os.path.join(ROOT, "harness/nbmc/src/bin/%s.rs" % pid.lower()))
+        if pid in CHECKS and has_bin:
             c = CHECKS[pid]
             checks.append({
                 "property_id": pid,
@@ -54,7 +131,7 @@ def main():
             "add_only": True,
         },
         "engines": [
-            {"name": "E-prod", "path": "harness/nbmc-core/src/runner.rs", "serves_properties": sorted(k for k, v in CHECKS.items() if v["engine"].startswith("E-prod")), "kind_free_text": "deterministic odometer over alphabet products, sharded over 16 worker processes, real code vs refint reference model"},
+            {"name": "E-prod", "path": "harness/nbmc-core/src/runner.rs", "serves_properties": sorted(k for k, v in CHECKS.items() if "E-prod" in v["engine"]), "kind_free_text": "deterministic odometer over alphabet products, sharded over 16 worker processes, real code vs refint reference model"},
             {"name": "E-hist", "path": "harness/nbmc/src/hist.rs", "serves_properties": sorted(k for k, v in CHECKS.items() if "E-hist" in v["engine"]), "kind_free_text": "explicit-state search over operation histories (stateright / complete tree walk) calling the real methods"},
         ],
         "checks": checks,
